@@ -154,6 +154,17 @@ Theorem C33_handler_202_iff_fetching : forall h,
 Proof. exact Proof.C33.handler_202. Qed.
 Print Assumptions C33_handler_202_iff_fetching.
 
+(* executable form on observed requests (status answered, blob accepted by the remote during this
+   very request?): evaluated on every request that reached a real origin, also on overlapping ones *)
+Theorem C33_uploads_check_sound : forall hs, C33_uploads_check (observed_of hs) = true.
+Proof. exact Proof.C33.uploads_check_sound. Qed.
+Print Assumptions C33_uploads_check_sound.
+
+Theorem C33_uploads_check_means : forall ups,
+  C33_uploads_check ups = true <-> forall c u, In (c, u) ups -> c = 200 -> u = true.
+Proof. exact Proof.C33.uploads_check_means. Qed.
+Print Assumptions C33_uploads_check_means.
+
 (* with origins that answer from the handler: before the put, every dependency was — during one of
    the recorded requests — in the cache of an origin that uploaded it to the remote cluster and had
    the upload accepted; everything that origin answered before was "still fetching" (202) *)
